@@ -2,6 +2,8 @@
 
 package desync
 
+import "os"
+
 // Accessors for the verification harness (build tag verif). No behaviour.
 
 // VerifDiscriminator exposes discriminatorFromAvg.
@@ -9,3 +11,15 @@ func VerifDiscriminator(avg uint64) uint32 { return discriminatorFromAvg(avg) }
 
 // VerifGoodbyeBST exposes makeGoodbyeBST.
 func VerifGoodbyeBST(in []FormatGoodbyeItem) []FormatGoodbyeItem { return makeGoodbyeBST(in) }
+
+// VerifFileSeedClone exposes fileSeedSegment.clone.
+func VerifFileSeedClone(dst, src *os.File, srcOffset, srcLength, dstOffset, blocksize uint64) (uint64, uint64, error) {
+	s := &fileSeedSegment{file: src.Name(), canReflink: true}
+	return s.clone(dst, src, srcOffset, srcLength, dstOffset, blocksize)
+}
+
+// VerifNullClone exposes nullChunkSection.clone.
+func VerifNullClone(dst, blockfile *os.File, offset, length, blocksize uint64) (uint64, uint64, error) {
+	s := &nullChunkSection{from: offset, to: offset + length, blockfile: blockfile, canReflink: true}
+	return s.clone(dst, offset, length, blocksize)
+}
